@@ -239,6 +239,22 @@ fn main() {
    let mut st = Stats { histories: 0, histories_ge2: 0, ops: 0, queries: 0, viol: vec![] };
    let n = 4usize;
    let mut exhaustive = 0u64;
+   if arg("miri", 0) == 1 {
+      // a few short histories that collapse cycles over merged classes and exercise path compression / union by rank
+      for hist in [vec![(0, 1), (1, 2), (2, 0), (3, 0), (0, 3)], vec![(1, 1), (2, 3), (3, 2), (1, 2), (3, 1)], vec![(0, 1), (0, 1), (2, 3), (1, 2), (3, 0)]] {
+         check_trrel_history(n, &hist, &mut st);
+      }
+      for hist in [vec![UfOp::Add(0), UfOp::Union(1, 2), UfOp::Find(2), UfOp::UnionIds(0, 2), UfOp::Find(1), UfOp::Union(2, 0)],
+                   vec![UfOp::Union(0, 1), UfOp::Union(2, 0), UfOp::Add(1), UfOp::UnionIds(1, 2), UfOp::Find(0)]] {
+         check_uf_history(3, &hist, &mut st);
+      }
+      println!("{{\"histories\":{},\"histories_with_2_or_more_operations\":{},\"exhaustive_histories\":0,\"operations\":{},\"queries_compared\":{},\"violations\":{}}}", st.histories, st.histories_ge2, st.ops, st.queries, st.viol.len());
+      for (l, w) in &st.viol {
+         println!("{{\"violation\":true,\"what\":\"{}\",\"witness\":\"{}\"}}", l, json_escape(w));
+      }
+      println!("{{\"done\":true}}");
+      return;
+   }
    if which & 1 != 0 {
       // all add-sequences of length 1..=len over 4 elements (16 pairs per step)
       for l in 1..=len {
